@@ -395,5 +395,65 @@ def walk (tp : Topo) (dcs : List Nat) (rf : Nat → Nat) : St → List Host → 
 def nts (ring : List Entry) (rfs : List (Nat × Nat)) (t : Int) : List Host :=
   (walk (topoOf ring) (rfs.map (·.1)) (rfOf rfs) init ((clockwise ring t).map (·.2))).replicas
 
+/-! ### keyspace replication options (what `system_schema.keyspaces.replication` / `strategy_options` mean) -/
+
+/-- value of a decimal digit -/
+def digit (c : Char) : Option Nat := if '0' ≤ c ∧ c ≤ '9' then some (c.toNat - 48) else none
+
+/-- positional value of a digit string, most significant digit first: Σ dᵢ·10^(n-1-i) -/
+def decimalAux : List Char → Option Nat
+  | [] => some 0
+  | c :: cs =>
+    match digit c, decimalAux cs with
+    | some d, some v => some (d * 10 ^ cs.length + v)
+    | _, _ => none
+
+/-- a decimal numeral: at least one digit -/
+def decimal (s : List Char) : Option Nat := if s.isEmpty then none else decimalAux s
+
+/-- the replication factor an option value denotes: a non-negative integer, or a string holding a decimal numeral with
+an optional sign (`Integer.parseInt`; the driver accepts the range of a 64-bit int) whose value is not negative;
+anything else (other types, nil = option absent, malformed text, transient-replication "3/1") denotes none. -/
+def rfOfOpt : OptVal → Option Nat
+  | .int v => if 0 ≤ v then some v.toNat else none
+  | .str ('-' :: ds) => match decimal ds with
+    | some 0 => some 0
+    | _ => none
+  | .str ('+' :: ds) => match decimal ds with
+    | some n => if n < 2 ^ 63 then some n else none
+    | none => none
+  | .str ds => match decimal ds with
+    | some n => if n < 2 ^ 63 then some n else none
+    | none => none
+  | .other => none
+
+/-- the strategy classes Cassandra ships, with and without the package prefix -/
+inductive ClassKind
+  | simple | nts | local_
+deriving DecidableEq
+
+def classKind (cls : List Char) : Option ClassKind :=
+  if cls = "org.apache.cassandra.locator.SimpleStrategy".toList ∨ cls = "SimpleStrategy".toList then some .simple
+  else if cls = "org.apache.cassandra.locator.NetworkTopologyStrategy".toList ∨ cls = "NetworkTopologyStrategy".toList
+    then some .nts
+  else if cls = "org.apache.cassandra.locator.LocalStrategy".toList ∨ cls = "LocalStrategy".toList then some .local_
+  else none
+
+/-- what a keyspace's replication setting means, for the strategy classes Cassandra ships (nothing is specified for other
+class names): SimpleStrategy — the number under `replication_factor`, no placement knowledge when it denotes none;
+NetworkTopologyStrategy — every option other than `class` names a datacenter, mapped to the number its value denotes,
+datacenters whose value denotes none are left out; LocalStrategy — no placement. -/
+def strategy (cls : List Char) (opts : List (List Char × OptVal)) : Option Strategy :=
+  match classKind cls with
+  | none => none
+  | some .local_ => some .none_
+  | some .simple =>
+    some (match (opts.lookup "replication_factor".toList).bind rfOfOpt with
+      | some rf => .simple rf
+      | none => .none_)
+  | some .nts =>
+    some (.nts ((opts.filter (fun kv => kv.1 ≠ "class".toList)).filterMap
+      (fun kv => (rfOfOpt kv.2).map (fun rf => (kv.1, rf)))))
+
 end Spec
 end Placement
